@@ -3,8 +3,430 @@
 -/
 import BitstringModel.Model.C19
 import BitstringModel.Proofs.Basic
-
 namespace BM.C19
 open BM
+
+/-! ### generated graphs -/
+theorem graph_of_toList (arr : Array Nat) (f : Nat → Nat) (k : Nat)
+    (h : arr.toList = (List.range k).map f) :
+    ∀ n, n < k → arr[n]? = some (f n) := by
+  intro n hn
+  rw [← Array.getElem?_toList, h, List.getElem?_map, List.getElem?_range hn]
+  rfl
+
+/-! ### digit characters -/
+
+/-- all characters of `s` are digit characters below `k` -/
+def DigStr (k : Nat) (s : Str) : Prop := ∀ c ∈ s, ∃ n, n < k ∧ c = digitChar n
+
+theorem DigStr.mono {k k' : Nat} {s : Str} (hk : k ≤ k') (h : DigStr k s) : DigStr k' s := by
+  intro c hc
+  obtain ⟨n, hn, rfl⟩ := h c hc
+  exact ⟨n, by omega, rfl⟩
+
+theorem DigStr.nil (k : Nat) : DigStr k [] := by intro c hc; cases hc
+
+theorem DigStr.cons {k : Nat} {n : Nat} {s : Str} (hn : n < k) (h : DigStr k s) : DigStr k (digitChar n :: s) := by
+  intro c hc
+  rcases List.mem_cons.mp hc with rfl | hc
+  · exact ⟨n, hn, rfl⟩
+  · exact h c hc
+
+theorem DigStr.append {k : Nat} {s t : Str} (hs : DigStr k s) (ht : DigStr k t) : DigStr k (s ++ t) := by
+  intro c hc
+  rcases List.mem_append.mp hc with hc | hc
+  · exact hs c hc
+  · exact ht c hc
+
+theorem dig_isWs : ∀ n, n < 16 → isWs (digitChar n) = false := by decide
+theorem dig_lower : ∀ n, n < 16 → lowerC (digitChar n) = digitChar n := by decide
+theorem dig_ne_us : ∀ n, n < 16 → digitChar n ≠ '_' := by decide
+theorem dig_ne_comma : ∀ n, n < 16 → digitChar n ≠ ',' := by decide
+theorem dig_ne_x : ∀ n, n < 16 → digitChar n ≠ 'x' := by decide
+theorem dig_ne_quote : ∀ n, n < 16 → digitChar n ≠ '\'' := by decide
+theorem dig_ne_dot : ∀ n, n < 16 → digitChar n ≠ '.' := by decide
+theorem dig_ne_rparen : ∀ n, n < 16 → digitChar n ≠ ')' := by decide
+theorem dig_ne_b : ∀ n, n < 2 → digitChar n ≠ 'b' := by decide
+theorem dig_decVal : ∀ n, n < 10 → decVal? (digitChar n) = some n := by decide
+
+theorem DigStr.not_mem {k : Nat} {s : Str} {c : Char} (h : DigStr k s) (hc : ∀ n, n < k → digitChar n ≠ c) : c ∉ s := by
+  intro hm
+  obtain ⟨n, hn, e⟩ := h c hm
+  exact hc n hn e.symm
+
+theorem DigStr.removeWs {s : Str} (h : DigStr 16 s) : removeWs s = s := by
+  unfold C19.removeWs
+  rw [List.filter_eq_self]
+  intro c hc
+  obtain ⟨n, hn, rfl⟩ := h c hc
+  rw [dig_isWs n hn]; rfl
+
+theorem DigStr.map_lower {s : Str} (h : DigStr 16 s) : s.map lowerC = s := by
+  induction s with
+  | nil => rfl
+  | cons c t ih =>
+    obtain ⟨n, hn, rfl⟩ := h _ (List.mem_cons_self)
+    rw [List.map_cons, dig_lower n hn, ih (fun c hc => h c (List.mem_cons_of_mem _ hc))]
+
+theorem DigStr.filter_us {s : Str} (h : DigStr 16 s) : s.filter (· ≠ '_') = s := by
+  rw [List.filter_eq_self]
+  intro c hc
+  obtain ⟨n, hn, rfl⟩ := h c hc
+  exact decide_eq_true (dig_ne_us n hn)
+
+theorem remove2_of_not_mem (a b : Char) (s : Str) (h : b ∉ s) : remove2 a b s = s := by
+  fun_induction remove2 a b s with
+  | case1 => rfl
+  | case2 => rfl
+  | case3 x y t hxy ih =>
+    exact absurd (hxy.2 ▸ List.mem_cons_of_mem _ List.mem_cons_self) h
+  | case4 x y t hxy ih =>
+    rw [ih (fun hm => h (List.mem_cons_of_mem _ hm))]
+
+/-! ### `splitComma` -/
+
+theorem splitComma_single (s : Str) (h : ',' ∉ s) : splitComma s = [s] := by
+  induction s with
+  | nil => rfl
+  | cons c t ih =>
+    have hc : c ≠ ',' := fun e => h (e ▸ List.mem_cons_self)
+    have ht : ',' ∉ t := fun hm => h (List.mem_cons_of_mem _ hm)
+    simp only [splitComma, hc, if_false, ih ht]
+
+theorem splitComma_append (s t : Str) (h : ',' ∉ s) : splitComma (s ++ ',' :: t) = s :: splitComma t := by
+  induction s with
+  | nil => simp only [List.nil_append, splitComma, if_true]
+  | cons c u ih =>
+    have hc : c ≠ ',' := fun e => h (e ▸ List.mem_cons_self)
+    have hu : ',' ∉ u := fun hm => h (List.mem_cons_of_mem _ hm)
+    simp only [List.cons_append, splitComma, hc, if_false, ih hu]
+
+
+/-! ### digit strings -/
+
+theorem hexDigits_length (l : Bits) : (hexDigits l).length = l.length / 4 := by
+  fun_induction hexDigits l with
+  | case1 a b c d t ih => simp only [List.length_cons, ih]; omega
+  | case2 l h =>
+    match l, h with
+    | [], _ => rfl
+    | [_], _ => simp
+    | [_, _], _ => simp
+    | [_, _, _], _ => simp
+    | a :: b :: c :: d :: t, h => exact absurd rfl (h a b c d t)
+
+theorem octDigits_length (l : Bits) : (octDigits l).length = l.length / 3 := by
+  fun_induction octDigits l with
+  | case1 a b c t ih => simp only [List.length_cons, ih]; omega
+  | case2 l h =>
+    match l, h with
+    | [], _ => rfl
+    | [_], _ => simp
+    | [_, _], _ => simp
+    | a :: b :: c :: t, h => exact absurd rfl (h a b c t)
+
+theorem binDigits_length (l : Bits) : (binDigits l).length = l.length := by
+  induction l with
+  | nil => rfl
+  | cons a t ih => simp only [binDigits, List.length_cons, ih]
+
+theorem hexDigits_short (l : Bits) (h : l.length < 4) : hexDigits l = [] := by
+  have := hexDigits_length l
+  rw [Nat.div_eq_of_lt h] at this
+  exact List.eq_nil_of_length_eq_zero this
+
+theorem octDigits_short (l : Bits) (h : l.length < 3) : octDigits l = [] := by
+  have := octDigits_length l
+  rw [Nat.div_eq_of_lt h] at this
+  exact List.eq_nil_of_length_eq_zero this
+
+theorem hexDigits_append (a b : Bits) (h : a.length % 4 = 0) : hexDigits (a ++ b) = hexDigits a ++ hexDigits b := by
+  fun_induction hexDigits a with
+  | case1 x y z w t ih =>
+    simp only [List.cons_append, hexDigits]
+    rw [ih (by simp only [List.length_cons] at h; omega)]
+  | case2 l hl =>
+    match l, hl, h with
+    | [], _, _ => simp only [List.nil_append]
+    | [_], _, h => simp at h
+    | [_, _], _, h => simp at h
+    | [_, _, _], _, h => simp at h
+    | a :: b :: c :: d :: t, hl, _ => exact absurd rfl (hl a b c d t)
+
+theorem octDigits_append (a b : Bits) (h : a.length % 3 = 0) : octDigits (a ++ b) = octDigits a ++ octDigits b := by
+  fun_induction octDigits a with
+  | case1 x y z t ih =>
+    simp only [List.cons_append, octDigits]
+    rw [ih (by simp only [List.length_cons] at h; omega)]
+  | case2 l hl =>
+    match l, hl, h with
+    | [], _, _ => simp only [List.nil_append]
+    | [_], _, h => simp at h
+    | [_, _], _, h => simp at h
+    | a :: b :: c :: t, hl, _ => exact absurd rfl (hl a b c t)
+
+theorem binDigits_append (a b : Bits) : binDigits (a ++ b) = binDigits a ++ binDigits b := by
+  induction a with
+  | nil => rfl
+  | cons x t ih => simp only [List.cons_append, binDigits, ih]
+
+theorem dig4_inj : ∀ a b c d a' b' c' d' : Bool,
+    digitChar (bitsToNat [a, b, c, d]) = digitChar (bitsToNat [a', b', c', d']) →
+      a = a' ∧ b = b' ∧ c = c' ∧ d = d' := by decide
+theorem dig3_inj : ∀ a b c a' b' c' : Bool,
+    digitChar (bitsToNat [a, b, c]) = digitChar (bitsToNat [a', b', c']) →
+      a = a' ∧ b = b' ∧ c = c' := by decide
+theorem dig1_inj : ∀ a a' : Bool, digitChar (bitsToNat [a]) = digitChar (bitsToNat [a']) → a = a' := by decide
+
+theorem hexDigits_inj (a b : Bits) (ha : a.length % 4 = 0) (hb : b.length % 4 = 0)
+    (h : hexDigits a = hexDigits b) : a = b := by
+  induction a using hexDigits.induct generalizing b with
+  | case1 x y z w t ih =>
+    match b, hb, h with
+    | x' :: y' :: z' :: w' :: t', hb, h =>
+      simp only [hexDigits, List.cons.injEq] at h
+      obtain ⟨h1, h2, h3, h4⟩ := dig4_inj _ _ _ _ _ _ _ _ h.1
+      rw [ih t' (by simp only [List.length_cons] at ha; omega) (by simp only [List.length_cons] at hb; omega) h.2,
+        h1, h2, h3, h4]
+    | [], _, h => simp [hexDigits] at h
+    | [_], hb, _ => simp at hb
+    | [_, _], hb, _ => simp at hb
+    | [_, _, _], hb, _ => simp at hb
+  | case2 l hl =>
+    have hl0 : l = [] := by
+      match l, hl, ha with
+      | [], _, _ => rfl
+      | [_], _, h => simp at h
+      | [_, _], _, h => simp at h
+      | [_, _, _], _, h => simp at h
+      | a :: b :: c :: d :: t, hl, _ => exact absurd rfl (hl a b c d t)
+    subst hl0
+    have : (hexDigits b).length = 0 := by rw [← h]; rfl
+    rw [hexDigits_length] at this
+    exact (List.eq_nil_of_length_eq_zero (by omega)).symm
+
+
+theorem octDigits_inj (a b : Bits) (ha : a.length % 3 = 0) (hb : b.length % 3 = 0)
+    (h : octDigits a = octDigits b) : a = b := by
+  induction a using octDigits.induct generalizing b with
+  | case1 x y z t ih =>
+    match b, hb, h with
+    | x' :: y' :: z' :: t', hb, h =>
+      simp only [octDigits, List.cons.injEq] at h
+      obtain ⟨h1, h2, h3⟩ := dig3_inj _ _ _ _ _ _ h.1
+      rw [ih t' (by simp only [List.length_cons] at ha; omega) (by simp only [List.length_cons] at hb; omega) h.2,
+        h1, h2, h3]
+    | [], _, h => simp [octDigits] at h
+    | [_], hb, _ => simp at hb
+    | [_, _], hb, _ => simp at hb
+  | case2 l hl =>
+    have hl0 : l = [] := by
+      match l, hl, ha with
+      | [], _, _ => rfl
+      | [_], _, h => simp at h
+      | [_, _], _, h => simp at h
+      | a :: b :: c :: t, hl, _ => exact absurd rfl (hl a b c t)
+    subst hl0
+    have : (octDigits b).length = 0 := by rw [← h]; rfl
+    rw [octDigits_length] at this
+    exact (List.eq_nil_of_length_eq_zero (by omega)).symm
+
+theorem binDigits_inj (a b : Bits) (h : binDigits a = binDigits b) : a = b := by
+  induction a generalizing b with
+  | nil =>
+    cases b with
+    | nil => rfl
+    | cons y t => simp [binDigits] at h
+  | cons x t ih =>
+    cases b with
+    | nil => simp [binDigits] at h
+    | cons y u =>
+      simp only [binDigits, List.cons.injEq] at h
+      rw [dig1_inj _ _ h.1, ih u h.2]
+
+/-! ### digit strings are made of digit characters -/
+
+theorem bits4_lt : ∀ a b c d : Bool, bitsToNat [a, b, c, d] < 16 := by decide
+theorem bits1_lt : ∀ a : Bool, bitsToNat [a] < 2 := by decide
+
+theorem hexDigits_digStr (l : Bits) : DigStr 16 (hexDigits l) := by
+  fun_induction hexDigits l with
+  | case1 a b c d t ih => exact DigStr.cons (bits4_lt a b c d) ih
+  | case2 l h => exact DigStr.nil 16
+
+theorem binDigits_digStr (l : Bits) : DigStr 2 (binDigits l) := by
+  induction l with
+  | nil => exact DigStr.nil 2
+  | cons a t ih => exact DigStr.cons (bits1_lt a) ih
+
+/-! ### reading digits back -/
+
+theorem digitBits4 : ∀ a b c d : Bool, digitBits 4 (digitChar (bitsToNat [a, b, c, d])) = some [a, b, c, d] := by decide
+theorem digitBits1 : ∀ a : Bool, digitBits 1 (digitChar (bitsToNat [a])) = some [a] := by decide
+
+theorem digitsToBits_hexDigits (l : Bits) (h : l.length % 4 = 0) : digitsToBits 4 (hexDigits l) = some l := by
+  fun_induction hexDigits l with
+  | case1 a b c d t ih =>
+    simp only [digitsToBits, digitBits4, ih (by simp only [List.length_cons] at h; omega)]
+    rfl
+  | case2 l hl =>
+    match l, hl, h with
+    | [], _, _ => rfl
+    | [_], _, h => simp at h
+    | [_, _], _, h => simp at h
+    | [_, _, _], _, h => simp at h
+    | a :: b :: c :: d :: t, hl, _ => exact absurd rfl (hl a b c d t)
+
+theorem digitsToBits_binDigits (l : Bits) : digitsToBits 1 (binDigits l) = some l := by
+  induction l with
+  | nil => rfl
+  | cons a t ih =>
+    simp only [binDigits, digitsToBits, digitBits1, ih]
+    rfl
+
+/-! ### tokens -/
+
+theorem parseToken_hex (s : Str) (bits : Bits) (hne : 0 < s.length) (hs : DigStr 16 s)
+    (hb : digitsToBits 4 s = some bits) : parseToken ('0' :: 'x' :: s) = .ok bits := by
+  match s, hne with
+  | v :: rest, _ =>
+    have hx : 'x' ∉ v :: rest := hs.not_mem dig_ne_x
+    simp only [parseToken, hs.map_lower, hs.filter_us, remove2_of_not_mem _ _ _ hx, hb]
+    simp
+
+theorem parseToken_bin (s : Str) (bits : Bits) (hne : 0 < s.length) (hs : DigStr 2 s)
+    (hb : digitsToBits 1 s = some bits) : parseToken ('0' :: 'b' :: s) = .ok bits := by
+  match s, hne with
+  | v :: rest, _ =>
+    have hs16 : DigStr 16 (v :: rest) := hs.mono (by omega)
+    have hx : 'b' ∉ v :: rest := hs.not_mem dig_ne_b
+    simp only [parseToken, hs16.map_lower, hs16.filter_us, remove2_of_not_mem _ _ _ hx, hb]
+    simp
+
+theorem parseTokens_one (t : Str) (b : Bits) (hne : t ≠ []) (h : parseToken t = .ok b) :
+    parseTokens [t] = .ok b := by
+  simp only [parseTokens, hne, if_false, h, List.append_nil]
+
+theorem parseTokens_two (t u : Str) (b c : Bits) (hne : t ≠ []) (hne' : u ≠ [])
+    (h : parseToken t = .ok b) (h' : parseToken u = .ok c) :
+    parseTokens [t, u] = .ok (b ++ c) := by
+  simp only [parseTokens, hne, hne', if_false, h, h', List.append_nil]
+
+/-! ### whitespace removal and whole literals -/
+
+theorem removeWs_cons_keep (c : Char) (s : Str) (h : isWs c = false) : removeWs (c :: s) = c :: removeWs s := by
+  simp only [removeWs, List.filter_cons, h, Bool.not_false, if_true]
+
+theorem removeWs_cons_drop (c : Char) (s : Str) (h : isWs c = true) : removeWs (c :: s) = removeWs s := by
+  simp only [removeWs, List.filter_cons, h, Bool.not_true, Bool.false_eq_true, if_false]
+
+theorem removeWs_append (s t : Str) : removeWs (s ++ t) = removeWs s ++ removeWs t :=
+  List.filter_append ..
+
+theorem removeWs_tok (p : Char) (hp : isWs p = false) (s : Str) (hs : DigStr 16 s) :
+    removeWs ('0' :: p :: s) = '0' :: p :: s := by
+  rw [removeWs_cons_keep _ _ (by decide), removeWs_cons_keep _ _ hp, hs.removeWs]
+
+theorem comma_not_mem_tok (p : Char) (hp : p ≠ ',') (s : Str) (hs : DigStr 16 s) : ',' ∉ '0' :: p :: s := by
+  intro hm
+  rcases List.mem_cons.mp hm with e | hm
+  · exact absurd e (by decide)
+  · rcases List.mem_cons.mp hm with e | hm
+    · exact hp e.symm
+    · exact hs.not_mem dig_ne_comma hm
+
+theorem parseAuto_hexLit (l : Bits) (h4 : l.length % 4 = 0) (hne : 4 ≤ l.length) :
+    parseAuto (pre0x ++ hexDigits l) = .ok l := by
+  have hs := hexDigits_digStr l
+  have hlen : 0 < (hexDigits l).length := by rw [hexDigits_length]; omega
+  show parseTokens (splitComma (removeWs ('0' :: 'x' :: hexDigits l))) = .ok l
+  rw [removeWs_tok _ (by decide) _ hs, splitComma_single _ (comma_not_mem_tok _ (by decide) _ hs)]
+  exact parseTokens_one _ _ (List.cons_ne_nil _ _) (parseToken_hex _ _ hlen hs (digitsToBits_hexDigits l h4))
+
+theorem parseAuto_binLit (l : Bits) (hne : 0 < l.length) :
+    parseAuto (pre0b ++ binDigits l) = .ok l := by
+  have hs := binDigits_digStr l
+  have hs16 : DigStr 16 (binDigits l) := hs.mono (by omega)
+  have hlen : 0 < (binDigits l).length := by rw [binDigits_length]; omega
+  show parseTokens (splitComma (removeWs ('0' :: 'b' :: binDigits l))) = .ok l
+  rw [removeWs_tok _ (by decide) _ hs16, splitComma_single _ (comma_not_mem_tok _ (by decide) _ hs16)]
+  exact parseTokens_one _ _ (List.cons_ne_nil _ _) (parseToken_bin _ _ hlen hs (digitsToBits_binDigits l))
+
+theorem parseAuto_mixedLit (a b : Bits) (h4 : a.length % 4 = 0) (ha : 4 ≤ a.length) (hb : 0 < b.length) :
+    parseAuto (pre0x ++ hexDigits a ++ commaSp ++ pre0b ++ binDigits b) = .ok (a ++ b) := by
+  have hsa := hexDigits_digStr a
+  have hsb := binDigits_digStr b
+  have hsb16 : DigStr 16 (binDigits b) := hsb.mono (by omega)
+  have hla : 0 < (hexDigits a).length := by rw [hexDigits_length]; omega
+  have hlb : 0 < (binDigits b).length := by rw [binDigits_length]; omega
+  have e : pre0x ++ hexDigits a ++ commaSp ++ pre0b ++ binDigits b
+      = ('0' :: 'x' :: hexDigits a) ++ ',' :: ' ' :: ('0' :: 'b' :: binDigits b) := by
+    simp only [pre0x, pre0b, commaSp, List.cons_append, List.nil_append, List.append_assoc]
+  rw [e]
+  unfold parseAuto
+  rw [removeWs_append, removeWs_tok _ (by decide) _ hsa, removeWs_cons_keep _ _ (by decide),
+    removeWs_cons_drop _ _ (by decide), removeWs_tok _ (by decide) _ hsb16,
+    splitComma_append _ _ (comma_not_mem_tok _ (by decide) _ hsa),
+    splitComma_single _ (comma_not_mem_tok _ (by decide) _ hsb16)]
+  exact parseTokens_two _ _ _ _ (List.cons_ne_nil _ _) (List.cons_ne_nil _ _)
+    (parseToken_hex _ _ hla hsa (digitsToBits_hexDigits a h4))
+    (parseToken_bin _ _ hlb hsb (digitsToBits_binDigits b))
+
+theorem parseAuto_nil : parseAuto [] = .ok [] := rfl
+
+/-! ### `str` with the truncation limit as a parameter -/
+
+/-- `strForm` with `MAX_CHARS` as a parameter (`strForm l = strFormG Gen.maxChars l` by `rfl`). -/
+def strFormG (M : Nat) (l : Bits) : Str :=
+  let length := l.length
+  if length = 0 then [] else
+  if length > M * 4 then pre0x ++ hexDigits (l.take (M * 4)) ++ dots else
+  if length < 32 ∧ length % 4 ≠ 0 then pre0b ++ binDigits l else
+  if length % 4 = 0 then pre0x ++ hexDigits l else
+  let e := length % 4
+  pre0x ++ hexDigits (l.take (length - e)) ++ commaSp ++ pre0b ++ binDigits (l.drop (length - e))
+
+def strFormAlgG (M : Nat) (lsb0 : Bool) (l : Bits) : Str :=
+  let length := l.length
+  if length = 0 then [] else
+  if length > M * 4 then
+    pre0x ++ hexDigits (sliceAB lsb0 l 0 (M * 4)) ++ dots else
+  if length < 32 ∧ length % 4 ≠ 0 then pre0b ++ binDigits l else
+  if length % 4 = 0 then pre0x ++ hexDigits l else
+  let e := length % 4
+  pre0x ++ hexDigits (sliceAB lsb0 l 0 (length - e)) ++ commaSp ++ pre0b ++ binDigits (sliceAB lsb0 l (length - e) length)
+
+theorem strForm_eq_G (l : Bits) : strForm l = strFormG Gen.maxChars l := rfl
+theorem strFormAlg_eq_G (lsb0 : Bool) (l : Bits) : strFormAlg lsb0 l = strFormAlgG Gen.maxChars lsb0 l := rfl
+
+theorem sliceAB_msb0_zero (l : Bits) (n : Nat) : sliceAB false l 0 n = l.take n := by
+  simp only [sliceAB, Bool.false_eq_true, if_false, List.drop_zero, Nat.sub_zero]
+
+theorem sliceAB_msb0_tail (l : Bits) (n : Nat) : sliceAB false l n l.length = l.drop n := by
+  simp only [sliceAB, Bool.false_eq_true, if_false]
+  exact List.take_of_length_le (by simp only [List.length_drop]; omega)
+
+theorem strFormAlgG_msb0 (M : Nat) (l : Bits) : strFormAlgG M false l = strFormG M l := by
+  simp only [strFormAlgG, strFormG, sliceAB_msb0_zero, sliceAB_msb0_tail]
+
+theorem parse_strFormG (M : Nat) (l : Bits) (h : l.length ≤ 4 * M) : parseAuto (strFormG M l) = .ok l := by
+  unfold strFormG
+  simp only
+  split
+  · next h0 => rw [List.eq_nil_of_length_eq_zero h0]; rfl
+  · next h0 =>
+    split
+    · next h1 => omega
+    · split
+      · exact parseAuto_binLit l (by omega)
+      · next h2 =>
+        split
+        · next h3 => exact parseAuto_hexLit l h3 (by omega)
+        · next h3 =>
+          have := parseAuto_mixedLit (l.take (l.length - l.length % 4)) (l.drop (l.length - l.length % 4))
+            (by simp only [List.length_take]; omega) (by simp only [List.length_take]; omega)
+            (by simp only [List.length_drop]; omega)
+          rw [List.take_append_drop] at this
+          exact this
 
 end BM.C19
